@@ -27,7 +27,7 @@ def script_for(frag, kind, variables):
     lines = ['echo "frag=%s"' % frag]
     for v in variables:
         lines.append('echo "%s=${%s-<unset>}"' % (v, v))
-    lines.append('for a in "$@" ; do ( cd "$a" && find . -type f | LC_ALL=C sort | while read f ; do echo "in:$f:$(sha1sum < "$f" | cut -c1-40)" ; done ) ; done')
+    lines.append('for a in "$@" ; do [ -d "$a" ] || continue ; ( cd "$a" && find . -type f | LC_ALL=C sort | while read f ; do echo "in:$f:$(sha1sum < "$f" | cut -c1-40)" ; done ) ; done')
     hooks = ('rm -f partial-*.txt\n'
              'if [ "${BOBV_FAIL:-}" = "%s" ]; then echo partial > partial-%s.txt; exit 1; fi\n'
              'if [ "${BOBV_KILL:-}" = "%s" ]; then echo partial > partial-%s.txt; kill -9 "$(cat "$BOBV_PIDFILE")"; sleep 5; fi\n'
@@ -205,7 +205,7 @@ def bob_env(extra=None, hashseed="0"):
 
 def run_bob(path, args, env=None, timeout=300, hashseed="0"):
     r = subprocess.run(["/venv/bin/python", os.path.join(REPO, "bob")] + list(args), cwd=path,
-                       env=bob_env(env, hashseed), stdout=subprocess.PIPE, stderr=subprocess.STDOUT, timeout=timeout, text=True)
+                       env=bob_env(env, hashseed), stdout=subprocess.PIPE, stderr=subprocess.STDOUT, stdin=subprocess.DEVNULL, timeout=timeout, text=True)
     return r.returncode, r.stdout
 
 
@@ -215,7 +215,7 @@ DUMP = os.path.join(VERIF, "harness", "vlib", "dump_proj.py")
 def dump(path, defines=(), sandbox=False, hashseed="0", extra_args=(), env=None, timeout=300):
     """package tree of the project as seen by the real RecipeSet (sub-process)"""
     cmd = ["/venv/bin/python", DUMP, path] + ["-D" + d for d in defines] + (["--sandbox"] if sandbox else []) + list(extra_args)
-    r = subprocess.run(cmd, env=bob_env(env, hashseed), stdout=subprocess.PIPE, stderr=subprocess.PIPE, timeout=timeout, text=True)
+    r = subprocess.run(cmd, env=bob_env(env, hashseed), stdout=subprocess.PIPE, stderr=subprocess.PIPE, stdin=subprocess.DEVNULL, timeout=timeout, text=True)
     if r.returncode != 0:
         return {"error": (r.stderr or r.stdout)[-2000:]}
     return json.loads(r.stdout)
